@@ -9,13 +9,15 @@
     where different content must give different ids.  The delimiter only affects CSV
     parsing, which happens before the model's input (the parsed rows).
 
-    Assumption (out of scope, recorded): in branch-file mode `wrgl commit` first consults
-    a cache (ensureTempCommit: the <branch>-tmp commit is reused when its message is the
-    file name, its time is not before the file's modification time and the key is the
-    same) and only then compares table ids.  C02_no_change models the comparison; the
-    cache is not modelled and the harness passes --no-cache.  With the cache, unchanged
-    data is still reported as "no change" (what the property promises), but a file whose
-    content changed while its modification time did not advance is reported unchanged. *)
+    The cache of branch-file mode (ensureTempCommit: the <branch>-tmp commit is reused when
+    its message is the file name, its key is the same and its time is not before the file's
+    modification time) is modelled on its logic: [cache_fresh], [branch_commit_step],
+    theorems C02_cache_fresh / C02_branch_commit_sound / C02_stale_only_if_old, and the
+    harness drives it with explicit modification times.  Recorded observation, NOT a
+    failure: a file whose content changed while its modification time is not after the
+    cached commit's time (restored backup, cp -p) is reported unchanged - the code trusts
+    the modification time there; the oracle judges only steps whose mtime is strictly after
+    the cached commit's time, the model predicts both. *)
 From W.lib Require Import Tree Bytes.
 From W.model Require Import Sorter SorterSpec Ingest IngestSpec.
 From W.proofs Require Import Sorter_proofs Ingest_proofs.
@@ -72,6 +74,34 @@ Print Assumptions C02_distinct.
 Theorem C02_no_change : forall head tmp, commit_if_changed head tmp = false <-> head = Some tmp.
 Proof. exact Ingest_proofs.commit_if_changed_spec. Qed.
 Print Assumptions C02_no_change.
+
+(** The cache in front of that decision (branch-file mode).  [cache_fresh t m] is
+    ensureTempCommit's reuse test on the times (file name and key unchanged): the cached
+    commit is reused iff the file's modification time is not after the cached commit's
+    (second-precision) time. *)
+Theorem C02_cache_fresh : forall t m, cache_fresh t m = true <-> m <= t.
+Proof. exact Ingest_proofs.cache_fresh_spec. Qed.
+Print Assumptions C02_cache_fresh.
+
+(** If the file is newer than the cached commit (or nothing is cached), `wrgl commit BRANCH
+    MSG` decides by the id of the table the file really holds: no commit iff unchanged
+    (with C02_no_change), the cache then holds that table, the head moves to it. *)
+Theorem C02_branch_commit_sound : forall st mtime now table,
+  (forall t tb, cs_cache st = Some (t, tb) -> t < mtime) ->
+  snd (branch_commit_step st mtime now table) = commit_if_changed (cs_head st) table /\
+  cs_cache (fst (branch_commit_step st mtime now table)) = Some (now, table) /\
+  cs_head (fst (branch_commit_step st mtime now table)) =
+    (if commit_if_changed (cs_head st) table then Some table else cs_head st).
+Proof. exact Ingest_proofs.branch_commit_step_sound. Qed.
+Print Assumptions C02_branch_commit_sound.
+
+(** Conversely a verdict that differs from the id comparison (changed data reported as "no
+    change") needs a cached commit whose time is not before the file's modification time. *)
+Theorem C02_stale_only_if_old : forall st mtime now table,
+  snd (branch_commit_step st mtime now table) <> commit_if_changed (cs_head st) table ->
+  exists t tb, cs_cache st = Some (t, tb) /\ mtime <= t.
+Proof. exact Ingest_proofs.branch_commit_stale_only_if_old. Qed.
+Print Assumptions C02_stale_only_if_old.
 
 (** Non-vacuity: the same three rows in two orders, run sizes 1 and 4096, blocks arriving
     reversed or not: one table; changing one cell gives another table. *)
